@@ -975,6 +975,32 @@ pub fn run(cfg: &Cfg) -> Report {
     };
     inputs.push(("bif-stress".into(), e));
   }
+  // string built-ins taking a second string: every sub-string of a text mixing 1-, 2-, 3- and 4-byte characters as
+  // the match / pattern / delimiter (byte offsets against character counts)
+  for _ in 0..(if thorough { 20000 } else { 500 }) {
+    let chars = ['a', 'é', 'ł', '€', '語', '🙏', 'b', ' ', '.', 'ß'];
+    let n = 1 + rng.below(7) as usize;
+    let text: Vec<char> = (0..n).map(|_| *rng.pick(&chars)).collect();
+    let (i, j) = {
+      let i = rng.below(n as u64) as usize;
+      let j = i + 1 + rng.below((n - i) as u64) as usize;
+      (i, j.min(n))
+    };
+    let needle: String = if rng.chance(1, 6) { rng.pick(&chars).to_string() } else { text[i..j].iter().collect() };
+    let text: String = text.iter().collect();
+    let e = match rng.below(9) {
+      0 => format!("substring before(\"{}\", \"{}\")", text, needle),
+      1 => format!("substring after(\"{}\", \"{}\")", text, needle),
+      2 => format!("contains(\"{}\", \"{}\")", text, needle),
+      3 => format!("starts with(\"{}\", \"{}\")", text, needle),
+      4 => format!("ends with(\"{}\", \"{}\")", text, needle),
+      5 => format!("split(\"{}\", \"{}\")", text, needle.replace('.', "\\\\.")),
+      6 => format!("replace(\"{}\", \"{}\", \"{}\")", text, needle.replace('.', "\\\\."), rng.pick(&chars)),
+      7 => format!("matches(\"{}\", \"{}\")", text, needle.replace('.', "\\\\.")),
+      _ => format!("substring after(string: \"{}\", match: \"{}\")", text, needle),
+    };
+    inputs.push(("bif-stress".into(), e));
+  }
   // temporal literals with offsets of any two digits, read, printed and compared
   for _ in 0..(if thorough { 20000 } else { 400 }) {
     let any_hour = rng.below(100);
@@ -1017,9 +1043,15 @@ pub fn run(cfg: &Cfg) -> Report {
     inputs.push(("bif-stress".into(), e));
   }
   // dates at the ends of the year range in every date function and operator
-  for _ in 0..(if thorough { 8000 } else { 300 }) {
+  for _ in 0..(if thorough { 12000 } else { 700 }) {
     let mut d = |rng: &mut Rng| -> String {
-      match rng.below(8) {
+      match rng.below(13) {
+        // date and time values without a zone, with a named zone, with an offset, at and beyond the years chrono knows
+        8 => "date and time(\"999999999-12-31T23:59:59\")".to_string(),
+        9 => "date and time(\"-999999999-01-01T00:00:00\")".to_string(),
+        10 => format!("date and time(\"{}-06-15T12:00:00{}\")", rng.pick(&["262143", "262144", "300000", "-262144", "-262145", "-300000", "2021"]), rng.pick(&["", "@Europe/Warsaw", "@Etc/UTC", "+01:00", "Z"])),
+        11 => format!("date and time(date({}, 3, 4), time(\"10:11:12{}\"))", rng.pick(&["262144", "-262145", "999999999", "2021"]), rng.pick(&["", "Z", "@America/New_York"])),
+        12 => "date and time(\"2021-01-01T00:00:00\")".to_string(),
         0 => "date(\"-999999999-01-01\")".to_string(),
         1 => "date(\"999999999-12-31\")".to_string(),
         2 => "date(\"0000-01-01\")".to_string(),
@@ -1031,7 +1063,12 @@ pub fn run(cfg: &Cfg) -> Report {
       }
     };
     let (a, b) = (d(&mut rng), d(&mut rng));
-    let e = match rng.below(12) {
+    let e = match rng.below(17) {
+      12 => format!("{} > {}", a, b),
+      13 => format!("{} between {} and {}", a, b, a),
+      14 => format!("{} in [{}..{}]", a, b, a),
+      15 => format!("{} in ({}..{})", b, a, b),
+      16 => format!("[{}, {}] = [{}, {}]", a, b, b, a),
       0 => format!("years and months duration({}, {})", a, b),
       1 => format!("{} - {}", a, b),
       2 => format!("{} < {}", a, b),
